@@ -126,7 +126,11 @@ func run(prop, tier, repo, evDir, knownPath, overlayF, rulesF string, listObl bo
 	knownBy := map[string]KnownFinding{}
 	for _, k := range known {
 		if k.Status == "known" {
-			knownBy[k.Rule+" : "+k.Construct] = k
+			key := k.Rule + " : " + k.Construct
+			if prev, dup := knownBy[key]; dup && prev.Property == prop {
+				continue // keep the entry written for this property
+			}
+			knownBy[key] = k
 		}
 	}
 	var viol, knownHit []Oblig
